@@ -56,6 +56,7 @@ class C18Monitor(Monitor):
         self.last_req = 0
         self.step_state = None
         self.gsc_in_step = []
+        self.last_gen = None
 
     def _absorb(self):
         for r in self.w.requests[self.last_req:]:
@@ -70,6 +71,9 @@ class C18Monitor(Monitor):
 
     def on_seeds(self, tree, res):
         self.S = {id(d) for d, c in res.items() if c.individuals}
+
+    def on_generated(self, tree, gen, res):
+        self.last_gen = (type(gen).__name__, {id(d): len(c.individuals) for d, c in res.items()})
 
     def on_sprout_end(self, tree):
         w = self.w
@@ -164,8 +168,14 @@ class C18Monitor(Monitor):
             same_rng = rng_state_digest() == st["rng"]
             allhib = all(d._hibernating for d in active)
             if same_rng and allhib:
-                self.violate("stall/all-active-demes-hibernating",
-                             {"step": w.step, "active": [d.id for d in active], "gsc": w.plan.get("gsc", {}).get("kind")})
+                # identify the history: did the last sprouting round still generate candidates from the sleepers
+                # (and the filters rejected them all), or did the generator offer nothing for them?
+                gname, counts = self.last_gen if self.last_gen else ("no-round", {})
+                offered = [counts.get(id(d), 0) for d in active]
+                how = "candidates-all-filtered" if offered and all(n > 0 for n in offered) else "no-candidates-generated"
+                self.violate("stall/all-active-demes-hibernating/%s/%s" % (gname, how),
+                             {"step": w.step, "active": [d.id for d in active], "gsc": w.plan.get("gsc", {}).get("kind"),
+                              "candidates_offered_per_sleeper": offered})
             elif same_rng:
                 self.violate("stall/no-evaluation-no-state-change", {"step": w.step, "active": [d.id for d in active]})
             else:
